@@ -196,6 +196,16 @@ def oracle(ctx):
                    {b'src/a/x.container': unit, b'src/a/to-b': ('link', b'../b'), b'src/b/y.container': unit, b'src/b/to-a': ('link', b'../a')},
                    {b'src/sub/x.container': unit, b'src/sub/up': ('link', b'..'), b'src/sub/self': ('link', b'.'), b'src/gone': ('link', b'nowhere')},
                    {b'src/x.container': unit, b'src/x.container.d/loop': ('link', b'../x.container.d'), b'src/x.container.d/10.conf': b'[Container]\nLabel=a=b\n'}]
+    # counts are input too: very many harmless lines in a row (comment lines, blank lines, entries, repeated headers) — in a section, before
+    # the first section, in a drop-in; whatever a reader does per line must not add up (stack, quadratic time)
+    N = 600000 if ctx.thorough else 250000
+    long_trees += [{b'src/many.container': unit + b'#c\n' * N + b'Exec=/bin/true\n', b'src/ok.volume': b'[Volume]\n'},
+                   {b'src/many.container': b';c\n' * N + unit, b'src/ok.volume': b'[Volume]\n'},
+                   {b'src/many.container': unit, b'src/many.container.d/10.conf': b'[Container]\n' + b'# c\n' * N + b'Label=a=b\n'},
+                   {b'src/many.container': unit + b'\n' * N + b'Label=a=b\n'},
+                   {b'src/many.container': unit + b'Label=k=v\n' * (N // 10)},
+                   {b'src/many.container': unit + b'[Container]\n' * (N // 10)},
+                   {b'src/many.container': unit + b'Exec=a ' + b'\\\n#c\n' * (N // 10) + b'b\n'}]
     n_adv = len(trees_)
     trees_ += long_trees
 
